@@ -5,6 +5,7 @@ import (
 	"strings"
 
 	sdkmath "cosmossdk.io/math"
+	sdk "github.com/cosmos/cosmos-sdk/types"
 	authtypes "github.com/cosmos/cosmos-sdk/x/auth/types"
 
 	ammtypes "github.com/elys-network/elys/x/amm/types"
@@ -236,6 +237,9 @@ func CheckC18(h *History, blk *BlockRecord) []Violation {
 // and outstanding loans never exceed 90% of the vault value right after a block in which a
 // loan was granted (interest accrued later may push utilisation above the cap; granting may not).
 func CheckC07Chain(h *History, blk *BlockRecord) []Violation {
+	if v := c07ChainRoundTrips(h, blk); len(v) > 0 {
+		return v
+	}
 	if h.Prev == nil {
 		return nil
 	}
@@ -315,6 +319,76 @@ func CheckC07Chain(h *History, blk *BlockRecord) []Violation {
 		if tv.IsPositive() && loans.MulRaw(10).GTE(tv.MulRaw(8)) {
 			h.Labels["c07-open-at-utilisation>=80%"]++
 		}
+	}
+	return out
+}
+
+// c07ChainRoundTrips: an account whose only transaction of the block is the scenario's atomic [bond x, unbond the
+// shares x buys] must not end the block with more of the deposit denom than it started with (fees added back),
+// beyond one share's worth plus a unit of rounding.
+func c07ChainRoundTrips(h *History, blk *BlockRecord) []Violation {
+	if h.Prev == nil {
+		return nil
+	}
+	var out []Violation
+	denom := h.Cur.SSParams.DepositDenom
+	for i := 0; i+1 < len(blk.Txs); i++ {
+		b, ok1 := blk.Txs[i].Msg.(*sstypes.MsgBond)
+		u, ok2 := blk.Txs[i+1].Msg.(*sstypes.MsgUnbond)
+		if !ok1 || !ok2 || !blk.Txs[i+1].JoinPrev || blk.Txs[i].JoinPrev || blk.Txs[i].Code != 0 || b.Creator != u.Creator {
+			continue
+		}
+		n := 0
+		for _, tx := range blk.Txs {
+			if tx.Signer == blk.Txs[i].Signer {
+				n++
+			}
+		}
+		if n != 2 {
+			continue
+		}
+		// nothing else may have paid this account in the block (rewards paid out by a forced close of its position,
+		// incoming transfers)
+		in := TransfersTo(blk, b.Creator).AmountOf(denom)
+		outp := TransfersFrom(blk, b.Creator).AmountOf(denom)
+		gain := in.Sub(outp)
+		fee, _ := sdk.ParseCoinsNormalized(blk.Txs[i].Fee)
+		gain = gain.Add(fee.AmountOf(denom))
+		// what the vault itself paid and took: transfers between the account and the vault module
+		vault := modAddr(sstypes.ModuleName)
+		var fromVault, toVault sdkmath.Int = sdkmath.ZeroInt(), sdkmath.ZeroInt()
+		for _, e := range allEvents(blk) {
+			if e.Type != "transfer" {
+				continue
+			}
+			c, err := sdk.ParseCoinsNormalized(attr(e, "amount"))
+			if err != nil {
+				continue
+			}
+			if attr(e, "sender") == vault && attr(e, "recipient") == b.Creator {
+				fromVault = fromVault.Add(c.AmountOf(denom))
+			}
+			if attr(e, "sender") == b.Creator && attr(e, "recipient") == vault {
+				toVault = toVault.Add(c.AmountOf(denom))
+			}
+		}
+		rate := sdkmath.LegacyOneDec()
+		if sup := h.Cur.Supply.AmountOf(sstypes.GetShareDenom()); sup.IsPositive() {
+			rate = h.Cur.SSParams.TotalValue.ToLegacyDec().QuoInt(sup)
+		}
+		allow := rate.Ceil().TruncateInt().AddRaw(2)
+		// the share amount was computed by the generator at the committed rate; the rate at execution can only be
+		// higher (interest booked earlier in the block), so the deposit may have bought a few shares fewer than the
+		// transaction withdraws – those extra shares are the account's own older ones and are paid at the rate
+		if minted := b.Amount.ToLegacyDec().Quo(rate).TruncateInt(); u.Amount.GT(minted) {
+			allow = allow.Add(rate.MulInt(u.Amount.Sub(minted)).Ceil().TruncateInt()).AddRaw(1)
+		}
+		h.Labels["c07-chain-roundtrips-judged"]++
+		if fromVault.GT(toVault.Add(allow)) {
+			out = append(out, Violation{Sig: "C07/round-trip-gained", Detail: fmt.Sprintf("%s deposited %s and, in the same transaction, withdrew the %s shares that deposit buys: the vault took %s and paid back %s (allowance one share's worth %s) (height %d; %s)",
+				blk.Txs[i].Signer, b.Amount, u.Amount, toVault, fromVault, allow, h.Cur.Height, blockSummary(blk))})
+		}
+		_ = gain
 	}
 	return out
 }
